@@ -4,7 +4,7 @@ From Coq Require Import List NArith Bool.
 From GQL Require Import Visitor.VisitorTree Visitor.VisitorWalk Visitor.VisitorLoop
      Visitor.VisitorKeysSpec Gen.VisitorKeys Visitor.TypeInfo
      Proofs.VisitorWalkProofs Proofs.VisitorLoopProofs Proofs.VisitorParallelProofs
-     Proofs.VisitorTypeInfoProofs.
+     Proofs.VisitorTypeInfoProofs Visitor.VisitorOrder Proofs.VisitorOrderProofs.
 Import ListNotations.
 
 (* The iterative loop of visitor.Visit, as written (explicit stack, keys, index, path,
@@ -91,6 +91,63 @@ Theorem C14_enter_leave_matched_nested : forall keys_of sel pol,
   forall n c key, nested pol (fst (walk keys_of sel pol c key n)).
 Proof. exact VisitorParallelProofs.walk_nested. Qed.
 Print Assumptions C14_enter_leave_matched_nested.
+
+(* ---- document order and "exactly once" ---- *)
+(* Without a break the events of the walk, read as (phase, node, kind) marks, are the Euler
+   tour of the tree by the key table -- a node, its children's tours in key order unless it
+   is skipped, the node again -- restricted to the kinds and phases for which the visitor has
+   a function. *)
+Theorem C14_document_order : forall keys_of sel pol,
+  (forall id ph, pol id ph <> Break) -> forall n c key,
+  map ev_mark (fst (walk keys_of sel pol c key n)) = shown sel (tour keys_of (skips sel pol) n).
+Proof. exact walk_is_tour. Qed.
+Print Assumptions C14_document_order.
+
+(* hence: enter events list the nodes that are not below a skipped node in pre-order, leave
+   events list those of them that are not skipped themselves in post-order *)
+Theorem C14_enter_preorder_leave_postorder : forall keys_of sel pol t,
+  (forall id ph, pol id ph <> Break) ->
+  enter_ids (walk_events keys_of sel pol t)
+  = map g_id (filter (has_fn sel PEnter) (enters keys_of (skips sel pol) t))
+  /\ leave_ids (walk_events keys_of sel pol t)
+     = map g_id (filter (has_fn sel PLeave) (leaves keys_of (skips sel pol) t))
+  /\ Sub (enters keys_of (skips sel pol) t) (preorder keys_of t)
+  /\ (forall m, In m (leaves keys_of (skips sel pol) t)
+                <-> In m (enters keys_of (skips sel pol) t) /\ skips sel pol m = false).
+Proof.
+  intros keys_of sel pol t Hnb. split; [apply enter_order; exact Hnb|]. split; [apply leave_order; exact Hnb|].
+  split; [apply enters_sub_preorder | intros m; apply left_iff_visited_not_skipped].
+Qed.
+Print Assumptions C14_enter_preorder_leave_postorder.
+
+(* For a tree whose nodes (those reachable through the key table) have pairwise distinct
+   identities and a policy that never breaks: a node that is not below a skipped node is
+   entered exactly once (when a function is selected for its kind); it is left exactly once
+   when moreover it is not skipped itself; any other identity -- in particular every node
+   below a skipped node -- occurs in no enter and no leave event. *)
+Theorem C14_exactly_once : forall keys_of sel pol t,
+  (forall id ph, pol id ph <> Break) ->
+  NoDup (map g_id (preorder keys_of t)) ->
+  forall x,
+    (count_occ N.eq_dec (enter_ids (walk_events keys_of sel pol t)) x = 1%nat
+     <-> In x (map g_id (filter (has_fn sel PEnter) (enters keys_of (skips sel pol) t))))
+    /\ (count_occ N.eq_dec (leave_ids (walk_events keys_of sel pol t)) x = 1%nat
+        <-> In x (map g_id (filter (has_fn sel PLeave) (leaves keys_of (skips sel pol) t))))
+    /\ (~ In x (map g_id (enters keys_of (skips sel pol) t)) ->
+        count_occ N.eq_dec (enter_ids (walk_events keys_of sel pol t)) x = 0%nat
+        /\ count_occ N.eq_dec (leave_ids (walk_events keys_of sel pol t)) x = 0%nat).
+Proof. exact exactly_once. Qed.
+Print Assumptions C14_exactly_once.
+
+(* With breaks: the events are a prefix of the events of the same policy with every break
+   read as continue, and every node is entered at most once and left at most once. *)
+Theorem C14_break_prefix_at_most_once : forall keys_of sel pol t,
+  (exists rest, walk_events keys_of sel (unbreak pol) t = walk_events keys_of sel pol t ++ rest)
+  /\ (NoDup (map g_id (preorder keys_of t)) ->
+      forall x, (count_occ N.eq_dec (enter_ids (walk_events keys_of sel pol t)) x <= 1)%nat
+                /\ (count_occ N.eq_dec (leave_ids (walk_events keys_of sel pol t)) x <= 1)%nat).
+Proof. intros. split; [apply events_prefix | apply at_most_once]. Qed.
+Print Assumptions C14_break_prefix_at_most_once.
 
 (* ---- VisitInParallel ---- *)
 (* The wrapper answers "no change" to the loop whatever the sub-visitors answer, so the loop
